@@ -29,7 +29,10 @@ def gen_case(rng):
         creds[hosts[0]] = ['user-a', 's3cret-aZ']
     return {'crawl': True, 'hosts': hosts, 'creds': creds, 'login_option': rng.random() < 0.25,
             'start_with_userinfo': rng.random() < 0.85, 'redirect_codes': [rng.choice([301, 302, 303, 307, 308]) for _ in range(2)],
-            'concurrent': rng.choice([1, 1, 3]), 'seed': rng.randrange(1 << 30), 'link_userinfo': rng.random() < 0.3}
+            'concurrent': rng.choice([1, 1, 3]), 'seed': rng.randrange(1 << 30), 'link_userinfo': rng.random() < 0.3,
+            # how the user info is written in URLs: both parts, a password without a user name (the name may come from an
+            # option or be empty by convention), a name with an empty password
+            'ui_shape': rng.choice(['both', 'both', 'pw-only', 'pw-only', 'empty-pw'])}
 
 
 def markers_of(host, cred, cookie):
@@ -38,6 +41,7 @@ def markers_of(host, cred, cookie):
     out = {cookie}
     if cred:
         for s in (pw, urllib.parse.quote(pw, safe=''), urllib.parse.quote(pw, safe='').lower(),
+                  base64.b64encode(':{}'.format(pw).encode('utf-8')).decode(), base64.b64encode('{}:'.format(pw).encode('utf-8')).decode(),
                   base64.b64encode('{}:{}'.format(user, pw).encode('utf-8')).decode(),
                   base64.b64encode('{}:{}'.format(user, pw).encode('latin-1', 'replace')).decode()):
             out.add(s)
@@ -55,7 +59,15 @@ def run_case(case, part):
 
     def userinfo(h):
         c = case['creds'].get(h)
-        return '{}:{}@'.format(urllib.parse.quote(c[0], safe=''), urllib.parse.quote(c[1], safe='')) if c else ''
+        if not c:
+            return ''
+        shape = case.get('ui_shape', 'both')
+        if shape == 'pw-only':
+            return ':{}@'.format(urllib.parse.quote(c[1], safe=''))
+        if shape == 'empty-pw':
+            # (the secret sits in the name part)
+            return '{}:@'.format(urllib.parse.quote(c[1], safe=''))
+        return '{}:{}@'.format(urllib.parse.quote(c[0], safe=''), urllib.parse.quote(c[1], safe=''))
 
     def handler(req):
         h = addr_host[req['addr']]
@@ -121,4 +133,4 @@ def run_case(case, part):
             part.count('crawl_requests_with_referer')
     if seen_cross:
         part.count('crawls_with_requests_to_several_origins')
-    part.nontrivial_case('crawl/{}/{}/{}'.format(len(hosts), sorted(case['creds']), case['login_option']))
+    part.nontrivial_case('crawl/{}/{}/{}/{}'.format(len(hosts), sorted(case['creds']), case['login_option'], case.get('ui_shape')))
